@@ -6,11 +6,11 @@
   Modelled, AS CODED (file : function):
   * models/gbm_process_simulator.py : get_paths_times, get_assets_paths_times, get_assets_paths
   * models/process_simulator.py     : get_gbm_paths (NORMAL, ANTITHETIC), get_vasicek_paths (NORMAL,
-        ANTITHETIC), get_cir_paths (EULER, LOGNORMAL, MILSTEIN, KAHLJACKEL), get_heston_paths (EULER, EULERLOG)
+        ANTITHETIC), get_cir_paths (EULER, LOGNORMAL, MILSTEIN, KAHLJACKEL), get_heston_paths (EULER, EULERLOG, QUADEXP)
   * models/black_scholes_mc.py      : the five `_value_mc_*` kernels (three arithmetic shapes)
   * models/vasicek_mc.py            : rate_path_mc, zero_price_mc
   * models/cir_montecarlo.py        : rate_path_mc, zero_price_mc (EULER, LOGNORMAL, MILSTEIN, KAHLJACKEL)
-  * models/heston.py                : get_paths (EULER, EULERLOG) and the value_mc aggregation
+  * models/heston.py                : get_paths (EULER, EULERLOG, QUADEXP given norminvcdf(u)) and the value_mc aggregation
   * models/lmm_mc.py                : lmm_simulate_fwds_1f (predictor-corrector step, as coded); lmm_cap_flr_pricer
         (after commit cf96daa: df initialised, arrays of size num_fwds)
   * products/equity/equity_asian_option.py : _value_mc_fast_numba (after commit 760047e: dt computed AFTER the
@@ -348,7 +348,7 @@ end
 /-! ## Default time from a uniform — `uniform_to_default_time` -/
 
 section dt
-variable {α : Type} [Zero α] [One α] [Add α] [Sub α] [Mul α] [Div α] [LT α] [LE α]
+variable {α : Type} [Zero α] [One α] [Add α] [Sub α] [Mul α] [Div α] [Neg α] [LT α] [LE α]
   [DecidableRel (α := α) (· < ·)] [DecidableRel (α := α) (· ≤ ·)]
 
 /-- `for i in range(1, n): if u <= v[i-1] and u > v[i]: index = i; break` (0 when no bracket is found);
@@ -370,6 +370,55 @@ def uniformToDefaultTime (o : Ops α) (u : α) (t v : List α) : α :=
     let index := findBracket u 1 v
     let lo : Int := (index : Int) - 1
     invSurvival o (pyIdxD t lo 0) (pyIdxD v lo 0) (t.getD index 0) (v.getD index 0) u
+
+
+/-! ## Heston QUADEXP (Andersen 2006) — `heston.get_paths` / `get_heston_paths`, scheme 3, one step as coded.
+Draws of one step: `n1`, `n2` standard normal, `u` uniform, and `w = norminvcdf(u)` (the inverse normal cdf is a
+parameter supplied by the caller: the quadratic branch uses it, the asset draw uses the ORIGINAL `n1`). -/
+
+structure QEDraw (α : Type) where
+  n1 : α
+  n2 : α
+  u : α
+  w : α
+
+/-- state `(x, vn)`, `x = log s`. -/
+def hestonQE (o : Ops α) (mu kappa theta sigma rho dt : α) (st : α × α) (d : QEDraw α) : α × α :=
+  let sigma2 := sigma * sigma
+  let rhohat := o.sqrt (1 - rho * rho)
+  let q := o.exp (-kappa * dt)
+  let psic := o.two - o.half
+  let k1 := o.half * dt * (kappa * rho / sigma - o.half) - rho / sigma
+  let k2 := o.half * dt * (kappa * rho / sigma - o.half) + rho / sigma
+  let k3 := o.half * dt * (1 - rho * rho)
+  let k4 := o.half * dt * (1 - rho * rho)
+  let a' := k2 + o.half * k4
+  let c1 := sigma2 * q * (1 - q) / kappa
+  let c2 := theta * sigma2 * ((1 - q) * (1 - q)) / o.two / kappa
+  let x := st.1
+  let vn := st.2
+  let zS := rho * d.n1 + rhohat * d.n2
+  let m := theta + (vn - theta) * q
+  let psi := (c1 * vn + c2) / (m * m)
+  let r : α × α :=      -- (vnp, M)
+    if psi ≤ psic then
+      let b2 := o.two / psi - 1 + o.sqrt ((o.two / psi) * (o.two / psi - 1))
+      let a := m / (1 + b2)
+      let b := o.sqrt b2
+      let vnp := a * ((b + d.w) * (b + d.w))
+      let dd := 1 - o.two * a' * a
+      (vnp, o.exp ((a' * b2 * a) / dd) / o.sqrt dd)
+    else
+      let p := (psi - 1) / (psi + 1)
+      let beta := (1 - p) / m
+      let vnp := if d.u ≤ p then 0 else o.log ((1 - p) / (1 - d.u)) / beta
+      (vnp, p + beta * (1 - p) / (beta - a'))
+  let k0 := -(o.log r.2) - (k1 + o.half * k3) * vn
+  (x + (mu * dt + k0 + (k1 * vn + k2 * r.1) + o.sqrt (k3 * vn + k4 * r.1) * zS), r.1)
+
+/-- asset path of scheme QUADEXP (initial price first) -/
+def hestonPathQE (o : Ops α) (s0 v0 mu kappa theta sigma rho dt : α) (ds : List (QEDraw α)) : List α :=
+  s0 :: ((scan (hestonQE o mu kappa theta sigma rho dt) (o.log s0, v0) ds).drop 1).map (fun st => o.exp st.1)
 
 end dt
 
